@@ -82,10 +82,17 @@ pub fn managed_race(prop: &'static str, seed: u64, close: bool) -> RaceOut {
     // in which a shrink that reads the free permits and retires them in two steps can be overtaken
     let storm = !close && !few && !small && rng.chance(1, 3);
     let dense = dense && !storm;
-    let threads = if small { 3 } else if few { rng.range(1, 2) as usize } else if storm { rng.range(1, 4) as usize } else if dense { rng.range(12, 40) as usize } else { rng.range(3, 12) as usize };
-    let iters = if small { rng.range(3, 8) as usize } else if few { rng.range(5000, 20000) as usize } else if storm { 1_000_000 } else { rng.range(200, 1500) as usize };
+    // "contention": max_size never changes; besides the getters one or two threads do nothing but take
+    // the pool's lock (retain that keeps everything, status). Objects only leave through failed... nothing:
+    // so the number of live objects may never exceed max_size, whatever the interleaving.
+    let contention = !close && !few && !small && !storm && rng.chance(1, 4);
+    let dense = dense && !contention;
+    let threads = if small { 3 } else if few { rng.range(1, 2) as usize } else if contention { rng.range(2, 6) as usize } else if storm { rng.range(1, 4) as usize } else if dense { rng.range(12, 40) as usize } else { rng.range(3, 12) as usize };
+    let iters = if small { rng.range(3, 8) as usize } else if few { rng.range(5000, 20000) as usize } else if contention { rng.range(2000, 8000) as usize } else if storm { 1_000_000 } else { rng.range(200, 1500) as usize };
     let start_max = if storm { rng.range(3, 6) as usize } else { rng.range(1, 4) as usize };
-    let resizes: Vec<usize> = if storm {
+    let resizes: Vec<usize> = if contention {
+        vec![start_max]
+    } else if storm {
         let n = rng.range(200, 600);
         (0..n).map(|k| if k % 2 == 0 { rng.usize_below(4) } else { rng.range(3, 6) as usize }).collect()
     } else {
@@ -104,7 +111,7 @@ pub fn managed_race(prop: &'static str, seed: u64, close: bool) -> RaceOut {
         hs.push(std::thread::spawn(move || -> Result<(), String> {
             let mut held = Vec::new();
             for i in 0..iters {
-                if !few && stop.load(Ordering::Relaxed) && i % 8 == 0 {
+                if !few && !contention && stop.load(Ordering::Relaxed) && i % 8 == 0 {
                     break;
                 }
                 let _ = cnt2.entered.fetch_add(1, Ordering::SeqCst);
@@ -168,8 +175,28 @@ pub fn managed_race(prop: &'static str, seed: u64, close: bool) -> RaceOut {
             }
         })
     };
+    let lockers: Vec<_> = (0..if contention { rng.range(1, 2) } else { 0 })
+        .map(|k| {
+            let (pool, stop) = (pool.clone(), stop.clone());
+            std::thread::spawn(move || {
+                let mut n = 0u64;
+                while !stop.load(Ordering::Relaxed) {
+                    if k == 0 || n % 2 == 0 {
+                        let r = pool.retain(|_, _| true);
+                        debug_assert!(r.removed.is_empty());
+                    } else {
+                        let _ = pool.status();
+                    }
+                    n += 1;
+                }
+                n
+            })
+        })
+        .collect();
     spin(delay);
-    if close {
+    if contention {
+        // the getters decide how long the round lasts
+    } else if close {
         pool.close();
     } else {
         for r in &resizes {
@@ -177,7 +204,7 @@ pub fn managed_race(prop: &'static str, seed: u64, close: bool) -> RaceOut {
             spin(rng.below(if storm { 30 } else { 400 }));
         }
     }
-    if !few {
+    if !few && !contention {
         stop.store(true, Ordering::SeqCst);
     }
     for h in hs {
@@ -188,6 +215,22 @@ pub fn managed_race(prop: &'static str, seed: u64, close: bool) -> RaceOut {
         }
     }
     stop.store(true, Ordering::SeqCst);
+    let mut lock_rounds = 0;
+    for l in lockers {
+        lock_rounds += l.join().unwrap_or(0);
+    }
+    if contention {
+        let peak = cnt.peak.load(Ordering::SeqCst);
+        let (created, dropped) = (cnt.created.load(Ordering::SeqCst), cnt.dropped.load(Ordering::SeqCst));
+        if peak > start_max {
+            viol.push(Violation { prop, oracle: "create_over_limit", msg: format!("max_size {} never changed, nothing was taken, yet create() was called with {} objects alive already ({} created in all)", start_max, peak - 1, created) });
+        } else if dropped > 0 {
+            // nothing fails, nothing is taken, retain keeps everything: the pool has no reason to let an object go
+            viol.push(Violation { prop, oracle: "healthy_object_discarded", msg: format!("{} objects were destroyed although no call failed, nothing was taken or removed and max_size {} never changed ({} created)", dropped, start_max, created) });
+        } else if created > start_max {
+            viol.push(Violation { prop, oracle: "create_with_idle_available", msg: format!("{} objects created for max_size {}", created, start_max) });
+        }
+    }
     let mut samples = 0;
     match sampler.join() {
         Ok((n, None)) => samples = n,
@@ -258,7 +301,7 @@ pub fn managed_race(prop: &'static str, seed: u64, close: bool) -> RaceOut {
         viol.push(Violation { prop, oracle: "objects_leaked", msg: format!("{} created, {} dropped after the pool is gone", c, d) });
     }
     let g = gets.load(Ordering::SeqCst) as u64;
-    let desc = format!("managed race close={} threads={} iters={} start_max={} resizes={:?} gets_ok={} created={}", close, threads, iters, start_max, resizes, g, c);
+    let desc = format!("managed race close={} regime={} threads={} iters={} start_max={} resizes={:?} gets_ok={} created={} lock_rounds={}", close, if contention { "contention" } else if storm { "storm" } else if dense { "dense" } else if few { "few" } else { "mixed" }, threads, iters, start_max, resizes, g, c, lock_rounds);
     RaceOut { violations: viol, hash: vh_common::fnv1a(desc.as_bytes()), desc: Json::obj().with("engine", "th_race").with("profile_prop", prop).with("seed", seed).with("case", desc), events: g + c as u64 + 2 + samples }
 }
 
